@@ -39,13 +39,16 @@ theorem old_tyOK (i : Nat) (n : Node) (x : V) (h : S.nodes[i]? = some n) (hx : e
       split at he
       · rename_i ht
         simp only [pure, Except.pure, Except.ok.injEq] at he
-        subst he; exact ht
+        subst he
+        simp only [Bool.and_eq_true] at ht
+        exact ht.1
       · cases he
     · cases he
   · cases he
 
 theorem old_app (i : Nat) (ty : Ty) (a : App) (h : S.nodes[i]? = some ⟨ty, .app a⟩) :
-    ∃ vo ea, envO[i]? = some vo ∧ evalApp envO a = .ok ea ∧ Sm.app ea = .ok vo ∧ a.out = [.ref 0] ∧ a.head.isPure = true := by
+    ∃ vo ea, envO[i]? = some vo ∧ evalApp envO a = .ok ea ∧ Sm.app ea = .ok vo ∧ a.out = [.ref 0] ∧ a.head.evaluable = true ∧
+      inplaceOK Sm ea vo = true := by
   obtain ⟨v, hv, he⟩ := hO.2 i _ h
   simp only [evalNode] at he
   split at he
@@ -53,12 +56,13 @@ theorem old_app (i : Nat) (ty : Ty) (a : App) (h : S.nodes[i]? = some ⟨ty, .ap
     obtain ⟨ea, h1, he⟩ := bind_ok.1 he
     obtain ⟨w, h2, he⟩ := bind_ok.1 he
     split at he
-    · simp only [pure, Except.pure, Except.ok.injEq] at he
+    · rename_i ht
+      simp only [pure, Except.pure, Except.ok.injEq] at he
       subst he
       have hm := evalApp_mono (envO.take i) (envO.drop i) a ea h1
       rw [List.take_append_drop] at hm
-      simp only [Bool.and_eq_true, beq_iff_eq] at hc
-      exact ⟨w, ea, hv, hm, h2, hc.1, hc.2⟩
+      simp only [Bool.and_eq_true, beq_iff_eq] at hc ht
+      exact ⟨w, ea, hv, hm, h2, hc.1, hc.2, ht.2⟩
     · cases he
   · cases he
 
@@ -85,7 +89,7 @@ theorem matchPath_isFn (pat : FnPat) : ∀ (path : List String) (i : Nat) (f : V
     unfold Store.matchPath at hm
     split at hm
     · rename_i a hn
-      obtain ⟨vo, ea, h1, h2, h3, _, _⟩ := old_app Sm S bindO envO hO i _ a hn
+      obtain ⟨vo, ea, h1, h2, h3, _, _, _⟩ := old_app Sm S bindO envO hO i _ a hn
       rw [hf] at h1; cases h1
       obtain ⟨pre, args, kwargs, deps, _, _, _, _, rfl⟩ := (evalApp_ok envO a ea).1 h2
       exact ⟨_, by simpa using hm, h3⟩
@@ -94,7 +98,7 @@ theorem matchPath_isFn (pat : FnPat) : ∀ (path : List String) (i : Nat) (f : V
     unfold Store.matchPath at hm
     split at hm
     · rename_i a hn
-      obtain ⟨vo, ea, h1, h2, h3, _, _⟩ := old_app Sm S bindO envO hO i _ a hn
+      obtain ⟨vo, ea, h1, h2, h3, _, _, _⟩ := old_app Sm S bindO envO hO i _ a hn
       rw [hf] at h1; cases h1
       obtain ⟨pre, args, kwargs, deps, hpre, _, _, _, rfl⟩ := (evalApp_ok envO a ea).1 h2
       simp only [Bool.and_eq_true, beq_iff_eq] at hm
@@ -131,7 +135,7 @@ theorem callOf_inv (pat : FnPat) (i : Nat) (a : App) (h : S.callOf [.ref i] pat 
         split at h
         · rename_i hf
           cases h
-          obtain ⟨vo, ea, h1, h2, h3, _, _⟩ := old_app Sm S bindO envO hO i _ a hn
+          obtain ⟨vo, ea, h1, h2, h3, _, _, _⟩ := old_app Sm S bindO envO hO i _ a hn
           obtain ⟨pre, args, kwargs, deps, hpre, _, _, _, rfl⟩ := (evalApp_ok envO a ea).1 h2
           unfold Store.fnMatches at hf
           split at hf
@@ -220,7 +224,7 @@ theorem skipChain_sound : ∀ (fuel i j : Nat) (x : V), skipChain S fuel i = .ok
       · rename_i hc
         split at h
         · rename_i k hp
-          obtain ⟨vo, ea, h1, h2, h3, _, _⟩ := old_app Sm S bindO envO hO i _ a hn
+          obtain ⟨vo, ea, h1, h2, h3, _, _, _⟩ := old_app Sm S bindO envO hO i _ a hn
           rw [hx] at h1; cases h1
           obtain ⟨pre, args, kwargs, deps, hpre, _, _, _, rfl⟩ := (evalApp_ok envO a ea).1 h2
           rw [hp] at hpre
@@ -251,7 +255,7 @@ theorem skipIdCast_ref (v' : List Tok) (j : Nat) (h : skipIdCast S v' = .ok [.re
       obtain ⟨ty, hn, rfl, rfl⟩ := appOf_inv Sm S bindO envO hO i a base k ha
       split at h
       · rename_i hc
-        obtain ⟨vo, ea, h1, h2, h3, hout, _⟩ := old_app Sm S bindO envO hO i _ a hn
+        obtain ⟨vo, ea, h1, h2, h3, hout, _, _⟩ := old_app Sm S bindO envO hO i _ a hn
         simp only [Bool.and_eq_true, beq_iff_eq] at hc
         have hv'' : v' = [.ref i] := by
           rw [← hc.2, App.outAt, hout]; simp
